@@ -68,6 +68,40 @@ theorem no_locals_outside_procedures (g : GlobalTable) (k : List Char) :
   | none => rfl
   | some e => cases e <;> rfl
 
+/-- The token the type-position rule looks at: the last non-comment token that ends at or before
+    the identifier. -/
+def prevToken (d : AnalyzedSource) (ident : Ident) : Option Token :=
+  ((d.tokens.takeWhile (fun t => t.range.hi ≤ ident.range.lo)).filter (fun t => t.kind != .Comment)).getLast?
+
+/-- **Type positions are global**: for an identifier directly after `:` or `of` (comments in
+    between do not matter) that is not the procedure's own name, `lookup_ident` answers from the
+    global table alone — a parameter or variable of the same name does not capture it. -/
+theorem type_position_is_global (d : AnalyzedSource) (pe : ProcedureEntry) (ident : Ident) (t : Token)
+    (hprev : prevToken d ident = some t) (hk : (t.kind == .Colon || t.kind == .Of) = true) :
+    lookupIdent d pe ident = .ok ((tblLookup d.table ident.value).map Entry.ofGlobal) := by
+  unfold prevToken at hprev
+  simp only [lookupIdent, hprev, hk, if_true]
+  -- the own-name test never fails; both of its outcomes answer from the global table here
+  have hown : ∀ (own : Except Panic Bool), (∃ b, own = .ok b) →
+      (match own with
+        | .error e => (Except.error e : Except Panic (Option Entry))
+        | .ok true => .ok ((tblLookup d.table ident.value).map Entry.ofGlobal)
+        | .ok false => .ok ((tblLookup d.table ident.value).map Entry.ofGlobal)) =
+      .ok ((tblLookup d.table ident.value).map Entry.ofGlobal) := by
+    intro own ⟨b, hb⟩
+    subst hb
+    cases b <;> rfl
+  apply hown
+  cases (allTokens d).sub pe.range with
+  | none => exact ⟨false, rfl⟩
+  | some s =>
+    simp only
+    split
+    · exact ⟨false, rfl⟩
+    · cases s.get? (pe.name.info.range.hi - 1) with
+      | none => exact ⟨false, rfl⟩
+      | some tk => exact ⟨_, rfl⟩
+
 /-- The first declaration of a name in a table wins (a table never holds two entries for one
     name: `enter` refuses duplicates). -/
 theorem enter_refuses_duplicate {α} (t : List (List Char × α)) (k : List Char) (v w : α)
